@@ -64,7 +64,10 @@ def generate(w, n, *, simulate=None, seed=None, timeout=900, limit=None, keep="K
         os.remove(path)
     if r.violated:
         raise vlib.ToolError(f"generator {w}: unexpected {r.violated}")
-    behs = vlib.parse_prints(r, "REPLAY")
+    behs = vlib.parse_prints(r, "REPLAY", limit=(None if simulate else limit))
+    r.total_generated = sum(1 for l in r.prints if l.startswith('<<"REPLAY"'))
+    r.prints = []
+    r.out = ""
     if simulate:
         # simulation prints prefixes of several lengths only when complete; dedupe
         seen, out = set(), []
